@@ -189,7 +189,7 @@ def nominal_requests_v1():
 T5, T1 = nominal_requests(), nominal_requests_v1()
 INTERLUDES = ["sign_unauth", "sign_auth", "sign_segwit", "advance", "advance-refused", "reset",
               "ancestor", "state", "params", "signerHb", "getPubKey", "getPubKey-all",
-              "unknown-command", "refused-key"]
+              "unknown-command", "refused-key", "link-failure", "link-failure"]
 
 
 def interlude(p, w, kinds, v1):
@@ -198,7 +198,11 @@ def interlude(p, w, kinds, v1):
     done = []
     for k in kinds:
         saved_plan = w.adv_plan
-        if v1:
+        if k == "link-failure":
+            # the link fails during a public-key query (the next request repairs it)
+            w.faults[w.nex] = "read"
+            reqs = [T1["getPubKey"] if v1 else T5["getPubKey"]]
+        elif v1:
             reqs = [dict(T1["sign"])] if k.startswith("sign") else \
                 [dict(T1["getPubKey"], keyId=kp) for kp in (
                     ALL_PATHS if k == "getPubKey-all" else ALL_PATHS[:1])] \
@@ -217,13 +221,21 @@ def interlude(p, w, kinds, v1):
                 w.adv_plan = {"final": "total"}
             reqs = [T5[k]]
         for r in reqs:
-            rep = request(p, r)
+            try:
+                rep = request(p, r)
+            except HSM2ProtocolInterrupt:
+                # the manager stops (a repair that finds the device in no state to serve from):
+                # the history is over
+                w.adv_plan = saved_plan
+                return done + ["manager-stopped"]
             check_sim(w)
             if not isinstance(rep, dict) or type(rep.get("errorcode")) is not int:
                 from .core import Violation
                 raise Violation("reply-shape", "%r -> %r" % (r.get("command"), rep))
         w.adv_plan = saved_plan
-        done.append("interlude:" + ("v1" if v1 else k))
+        done.append("interlude:" + ("v1" if v1 and k != "link-failure" else k))
+        if v1 and k == "link-failure":
+            done.append("interlude:v1-link-failure")
     return done
 
 
